@@ -1,6 +1,84 @@
 package main
 
-// replayOnRealCode runs the replay driver registered for the obligation's function, if any.
+import (
+	"context"
+	"encoding/json"
+	"fmt"
+	"os"
+	"os/exec"
+	"path/filepath"
+	"regexp"
+	"strings"
+	"time"
+)
+
+// A replay driver is an in-package Go test kept under /verif/replay_drivers; it is injected into
+// the repository's package with `go test -overlay` (nothing is written to /repo), receives the
+// failing obligation and the solver's model through environment variables, runs the REAL code
+// and prints a line containing REPRODUCED when the violated clause is observed at run time.
+type replayDriver struct {
+	Match string `json:"match"` // regexp on the obligation name
+	Pkg   string `json:"pkg"`   // package directory relative to the repository
+	File  string `json:"file"`  // driver file under /verif/replay_drivers
+	Test  string `json:"test"`
+}
+
+func loadDrivers(verif string) []replayDriver {
+	b, err := os.ReadFile(filepath.Join(verif, "replay_drivers", "drivers.json"))
+	if err != nil {
+		return nil
+	}
+	var ds []replayDriver
+	if err := json.Unmarshal(b, &ds); err != nil {
+		fmt.Fprintln(os.Stderr, "drivers.json:", err)
+	}
+	return ds
+}
+
+var fnNameRE = regexp.MustCompile(`\.([A-Za-z_][A-Za-z0-9_]*)(?:\$\d+)*/`)
+
+// replayOnRealCode runs the replay driver registered for the obligation, if any. It returns true
+// when the driver reproduced the violation on the real code. The driver's output is appended to
+// the replay file.
 func replayOnRealCode(o *options, u *Unit, ob *Obl, path string) bool {
+	for _, d := range loadDrivers(o.verif) {
+		re, err := regexp.Compile(d.Match)
+		if err != nil || !re.MatchString(ob.Name) {
+			continue
+		}
+		work := filepath.Join(o.verif, "work", fmt.Sprintf("replay-%d-%d", os.Getpid(), time.Now().UnixNano()))
+		os.MkdirAll(work, 0o755)
+		defer os.RemoveAll(work)
+		target := filepath.Join(o.repo, d.Pkg, "zz_verif_replay_test.go")
+		ov := map[string]map[string]string{"Replace": {target: filepath.Join(o.verif, "replay_drivers", d.File)}}
+		ovb, _ := json.Marshal(ov)
+		ovPath := filepath.Join(work, "overlay.json")
+		os.WriteFile(ovPath, ovb, 0o644)
+		fn := ""
+		if m := fnNameRE.FindStringSubmatch(ob.Name); m != nil {
+			fn = m[1]
+		}
+		ctx, cancel := context.WithTimeout(context.Background(), 150*time.Second)
+		defer cancel()
+		cmd := exec.CommandContext(ctx, "go", "test", "-overlay", ovPath, "-vet=off", "-count=1", "-timeout", "60s", "-run", "^"+d.Test+"$", "./"+strings.TrimPrefix(d.Pkg, "./"))
+		cmd.Dir = o.repo
+		cmd.Env = append(os.Environ(), "GOFLAGS=-mod=mod", "GOPROXY=off", "GOSUMDB=off", "GOTOOLCHAIN=local",
+			"VERIF_REPLAY_OP="+fn, "VERIF_REPLAY_OBLIGATION="+ob.Name, "VERIF_REPLAY_MODEL="+path)
+		out, _ := cmd.CombinedOutput()
+		reproduced := strings.Contains(string(out), "REPRODUCED")
+		// append to the replay record
+		var rec map[string]interface{}
+		if b, err := os.ReadFile(path); err == nil && json.Unmarshal(b, &rec) == nil {
+			rec["replay_driver"] = d.File
+			rec["replay_cmd"] = strings.Join(cmd.Args, " ")
+			rec["replay_output"] = trunc(string(out), 4000)
+			rec["reproduced_on_real_code"] = reproduced
+			nb, _ := json.MarshalIndent(rec, "", " ")
+			os.WriteFile(path, nb, 0o644)
+		}
+		if reproduced {
+			return true
+		}
+	}
 	return false
 }
